@@ -4,6 +4,10 @@ import JunoModel.C13.Tendermint
 import JunoModel.C13.ProofsShape
 import JunoModel.C13.ProofsInv
 import JunoModel.C13.ProofsStop
+import JunoModel.C13.ProofsStop2
+import JunoModel.C13.ProofsCurrent
+import JunoModel.C13.ProofsListen
+import JunoModel.C13.ProofsCommit
 import JunoModel.C13.ProofsSync
 /-!
 C13 — property theorems (statements only; proofs are in `Proofs*.lean`, `UpTo.lean`,
@@ -19,7 +23,11 @@ process can die, in a history with ANY NUMBER of earlier deaths and restarts, `h
 performed so far by all process instances: the first process is after any prefix of the effect
 trace of any run (before/after every individual append, flush, broadcast, timer, delivery, prune);
 or, from an earlier moment, the process died, was restarted and is after any prefix of its replay's
-effects; or it completed the replay and is after any prefix of the effects of any further inputs.
+effects; or it completed the replay and is after any prefix of the effects of any further inputs; or (round 5)
+a process — the first one or a restarted one — STOPPED between two inputs (context cancelled or a
+listener closed in the select loop; or the `SetWALEntry` of the next input failed) and its `Close`
+flushed the pending batch (`Moment.stoppedFirst`, `Moment.stoppedResumed`): these images are not
+prefix images — entries that no visible effect had forced out become durable.
 
 `ReplaySafeUpTo M r` (UpTo.lean): what recovery needs from the state machine, with state
 comparisons up to a bisimulation `r` (`≈`): an input is ignored (state `≈` unchanged, no actions) or
@@ -165,6 +173,87 @@ theorem no_conflicting_vote_after_error_stop {S} (M : Machine S) (r : Setoid S)
   obtain ⟨hist, hm, hvv⟩ := error_stop_moment_first M c0 ins ok pre x post hsplit hx closeOK
   exact no_conflict_upTo hs ne c0 n hist hm cont okc v (by rw [hvv]; exact hv)
 
+/-- **Every other error exit, too** (round 5). `execute` also returns an error when
+`DeleteWALEntries` fails (inside `commit`, behind the delivery) and when `SetWALEntry` fails. For the
+first process and for a process restarted at ANY moment of any history:
+* a failing prune leaves the image of the crash point in front of it (nothing is pending there,
+  `Close` has nothing to flush) — for EVERY machine;
+* a failing `SetWALEntry` for input `i`, when the call for `i` returns its log entry first (juno's
+  machine does: `tendermint_fixed_logs_first`), stops the process at the INPUT BOUNDARY in front of
+  `i`; `Close` flushes the pending batch. That image is a `Moment` (`stoppedFirst` / `stoppedResumed`)
+  with exactly the votes broadcast before `i`.
+Hence the recovery theorems hold after these stops as well. -/
+theorem failed_log_write_stop_is_a_moment {S} (M : Machine S) (c0 : Nat) :
+    (∀ (ins : List Input), ListenOK M (M.init (c0 + 1)) ins →
+      ∀ (pre : List Effect) (h : Nat) (post : List Effect),
+      (liveRun M (M.init (c0 + 1)) ins).2 = pre ++ Effect.prune h :: post → ∀ closeOK : Bool,
+      Moment M c0 (applyEffects (Node.fresh c0)
+        (stopTrace (liveRun M (M.init (c0 + 1)) ins).2 pre.length closeOK)) pre) ∧
+    (∀ (n : Node) (hist : List Effect), Moment M c0 n hist →
+      ∀ (cont : List Input), ListenOK M (recover M n).1 cont →
+      ∀ (pre : List Effect) (h : Nat) (post : List Effect),
+      (liveRun M (recover M n).1 cont).2 = pre ++ Effect.prune h :: post → ∀ closeOK : Bool,
+      Moment M c0 (applyEffects (recover M n).2.2
+        (stopTrace (liveRun M (recover M n).1 cont).2 pre.length closeOK))
+        (hist ++ (recover M n).2.1 ++ pre)) ∧
+    (∀ (ins : List Input) (i : Input) (rest : List Input),
+      ListenOK M (M.init (c0 + 1)) (ins ++ i :: rest) → ∀ (e : Entry) (ar : List Action),
+      (M.step (liveRun M (M.init (c0 + 1)) ins).1 i).2 = Action.writeWAL e :: ar → ∀ closeOK : Bool,
+      ∃ hist, Moment M c0 (applyEffects (Node.fresh c0)
+          (stopTrace (liveRun M (M.init (c0 + 1)) (ins ++ i :: rest)).2
+            (liveRun M (M.init (c0 + 1)) ins).2.length closeOK)) hist ∧
+        votesOf hist = votesOf (liveRun M (M.init (c0 + 1)) ins).2) ∧
+    (∀ (n : Node) (hist : List Effect), Moment M c0 n hist →
+      ∀ (ins : List Input) (i : Input) (rest : List Input),
+      ListenOK M (recover M n).1 (ins ++ i :: rest) → ∀ (e : Entry) (ar : List Action),
+      (M.step (liveRun M (recover M n).1 ins).1 i).2 = Action.writeWAL e :: ar → ∀ closeOK : Bool,
+      ∃ hist', Moment M c0 (applyEffects (recover M n).2.2
+          (stopTrace (liveRun M (recover M n).1 (ins ++ i :: rest)).2
+            (liveRun M (recover M n).1 ins).2.length closeOK)) hist' ∧
+        votesOf hist' =
+          votesOf (hist ++ (recover M n).2.1 ++ (liveRun M (recover M n).1 ins).2)) :=
+  ⟨fun ins ok pre h post hs c => prune_stop_moment_first M c0 ins ok pre h post hs c,
+   fun n hist hm cont okc pre h post hs c =>
+     prune_stop_moment_resumed M c0 n hist hm cont okc pre h post hs c,
+   fun ins i rest ok e ar hstep c => append_stop_moment_first M c0 ins i rest ok e ar hstep c,
+   fun n hist hm ins i rest okc e ar hstep c =>
+     append_stop_moment_resumed M c0 n hist hm ins i rest okc e ar hstep c⟩
+
+/-- **An error while the restarted process is still replaying** (the commit listener refuses a commit
+that the replay re-executes, the prune or the flush behind it fails): `replay` returns the error of
+`execute`, `Run` ends, `Close` runs. Whatever effect of the replay fails, the image is that of a
+prefix of the replay's effects — a `Moment` — with the votes re-broadcast so far; so a second restart
+recovers as after a crash during the replay. -/
+theorem error_stop_during_replay_is_a_crash_point {S} (M : Machine S) (c0 : Nat) (n : Node)
+    (hist : List Effect) (hm : Moment M c0 n hist) (q : List Effect) (x : Effect)
+    (post : List Effect) (hsplit : (recover M n).2.1 = q ++ x :: post) (hx : x.canFail = true)
+    (closeOK : Bool) :
+    ∃ hist', Moment M c0
+        (applyEffects n.crash (stopTrace (recover M n).2.1 q.length closeOK)) hist' ∧
+      votesOf hist' = votesOf (hist ++ q) :=
+  error_stop_moment_replaying M c0 n hist hm q x post hsplit hx closeOK
+
+/-- **Stop between two inputs, restart, go on — any number of times.** A process (the first one, or
+one restarted at ANY moment of any history and run over any further inputs `cont`) stops between two
+inputs and `Close` flushes what is pending. The process restarted on that image, while replaying and
+over ANY further inputs `cont2`, broadcasts no prevote / precommit that conflicts with one broadcast
+by ANY earlier process instance. (For the first process alone the state is recovered exactly:
+`regular_stop_recovers_exact_state`; this is the statement for histories in which regular stops,
+error stops and crashes alternate.) -/
+theorem no_conflicting_vote_after_stop_between_inputs {S} (M : Machine S) (r : Setoid S)
+    (hs : ReplaySafeUpTo M r) (ne : NoEquivocation M) (c0 : Nat) (n : Node) (hist : List Effect)
+    (hm : Moment M c0 n hist) (cont : List Input) (okc : ListenOK M (recover M n).1 cont)
+    (cont2 : List Input) :
+    let n2 := applyEffects (recover M n).2.2 ((liveRun M (recover M n).1 cont).2 ++ [Effect.flush])
+    ListenOK M (recover M n2).1 cont2 →
+    ∀ v ∈ votesOf (hist ++ (recover M n).2.1 ++ (liveRun M (recover M n).1 cont).2),
+      ∀ w ∈ votesOf ((recover M n2).2.1 ++ (liveRun M (recover M n2).1 cont2).2),
+        ¬ v.conflicts w := by
+  intro n2 ok2 v hv
+  have hm2 := Moment.stoppedResumed n hist hm cont okc
+  exact no_conflict_upTo hs ne c0 n2 _ hm2 cont2 ok2 v
+    (by simpa [votesOf_append, votesOf, Effect.vote?] using hv)
+
 /-- **Regular stop and restart.** `Run` returns (context cancelled or a listener closed, both only
 in the select loop) and its deferred `db.Close()` flushes the pending batch — also entries of
 inputs that made nothing visible and were never flushed before. A process restarted on that image
@@ -239,14 +328,36 @@ theorem tendermint_fixed_logs_first (env : Juno.C12.Env) (node : Nat) (m : Juno.
       walOf rest = [] :=
   tmT_logged_first env node m i
 
+/-- **The machine "with the F5 fix" is the current code.** `tmMachineT` (round 4: C12's transcription
+with `ProcessTimeout` returning nil when `onTimeout*` ignored the timeout) and the transcription
+itself are the same machine since the repair was applied to /repo (cd6cea9) and C12's model followed
+it. So `tendermint_fixed_logs_first`, `tendermint_fixed_never_equivocates`, `tendermint_fixed_shape`,
+`tendermint_fixed_shape_on_invariant_states` and the `_partial` crash theorem below are statements
+about juno's state machine AS IT IS; `tmMachineL`, `tm4L` are the code before cd6cea9. -/
+theorem tendermint_fixed_is_the_current_code (env : Juno.C12.Env) (node : Nat) :
+    tmMachineT env node = tmMachine env node ∧ tmQT env node = tmMachineQuiet env node := by
+  refine ⟨tmMachineT_eq_tmMachine env node, ?_⟩
+  show quietOf (tmMachineT env node) = _
+  rw [tmMachineT_eq_tmMachine]
+  rfl
+
+/-- Hence, for the current code without any variant: every call of juno's state machine returns no
+action at all or its log entry first, re-feeding exactly the input, and no second entry. -/
+theorem tendermint_logs_first (env : Juno.C12.Env) (node : Nat) (m : Juno.C12.Machine) (i : Input) :
+    ((tmMachine env node).step m i).2 = [] ∨
+    ∃ e rest, ((tmMachine env node).step m i).2 = Action.writeWAL e :: rest ∧ e.toInput = i ∧
+      walOf rest = [] := by
+  rw [← tmMachineT_eq_tmMachine]
+  exact tmT_logged_first env node m i
+
 /-- juno's machine with the F5 fix never equivocates in one uncrashed execution (a run of it is the
 run of C12's machine over the same entries minus the timeouts it ignores). -/
 theorem tendermint_fixed_never_equivocates (env : Juno.C12.Env) (node : Nat) :
     NoEquivocation (tmQT env node) :=
   tmQuietT_noEquivocation env node
 
-/-- **F5 (known), on the model of the code AS IT IS** (`tmMachineL`: `ProcessTimeout` runs the rules
-also for a timeout that `onTimeout*` ignored). Height 1, four equal validators, node 4: after the
+/-- **F5 — REGRESSION WITNESS for a defect FIXED in /repo (cd6cea9), on the model of the code BEFORE
+the fix** (`tmMachineL`: `ProcessTimeout` runs the rules also for a timeout that `onTimeout*` ignored). Height 1, four equal validators, node 4: after the
 inputs `pendIns` (round 0 ends nil; round 1 re-proposes 7 with valid round 0; two prevotes and two
 precommits of round 1; then the third round-0 prevote arrives late) the node has broadcast its
 round-1 precommit for 7 — its own vote completes the quorum — but `process` only checks the commit
@@ -262,9 +373,9 @@ theorem ignored_timeout_takes_pending_commit_unlogged :
        .setTimer 2 1 1]) :=
   tmL_ignored_timeout_takes_pending_commit
 
-/-- Hence juno's machine AS IT IS satisfies the recovery hypotheses for NO state equivalence: the
-crash theorems say nothing about it (their hypothesis is unsatisfiable), which is why Part 4 is about
-the machine with the fix. -/
+/-- REGRESSION WITNESS: hence juno's machine as it was BEFORE cd6cea9 satisfied the recovery hypotheses
+for NO state equivalence (the crash theorems said nothing about it). The current code is the machine
+with the fix: `tendermint_fixed_is_the_current_code`. -/
 theorem tendermint_as_is_is_not_replay_safe (r : Setoid Juno.C12.Machine) :
     ¬ ReplaySafeUpTo (quietOf tm4L) r :=
   tmL_not_replaySafe_upTo r
@@ -441,6 +552,56 @@ theorem stale_actions_after_failed_fetch_repeat_votes {S} (M : Machine S) (st : 
   refine ⟨h1, h2, h3, ?_, rfl⟩
   exact no_new_conflict_of_repeated hist _ (by rw [h4]; exact hlast) hok
 
+/-! ## Part 7 — the listen discipline is a consequence of the loop structure of `driver.listen` -/
+
+/-- **`ListenOK` is not an assumption about the driver.** `driverSeq M true s ins` says that `ins` is a
+call sequence `driver.listen` can produce from machine state `s`: `ProcessStart(0)` first, then events
+of the select (never a start) until a call returns a `Commit`, then `ProcessStart(0)` again — also
+when the committing call was itself a `ProcessStart` (ModelListen.lean; the harness checks every
+observed call of the real driver against it). For a machine in which `ProcessStart` starts the height
+and a call without a commit does not un-start it (`StartsHeights`), every such sequence obeys the
+discipline that the recovery theorems assume (`ListenOK`: a message or timeout only meets a started
+height) — from ANY state `s`, in particular from a recovered one, started or not. -/
+theorem driver_call_sequence_obeys_listen_discipline {S} (M : Machine S) (h : StartsHeights M)
+    (s : S) (ins : List Input) (hd : driverSeq M true s ins = true) : ListenOK M s ins :=
+  driverSeq_listenOK h ins s true (fun hh => by cases hh) hd
+
+/-- **juno's state machine starts heights** (C12's transcription, current code, every validator set,
+application, node, state and input): after `ProcessStart(0)` the height is started unless the call
+itself committed it, and a call that returns no `Commit` leaves a started height started. So for the
+real loop around juno's machine `ListenOK` holds: the hypothesis is discharged. -/
+theorem tendermint_call_sequences_obey_listen_discipline (env : Juno.C12.Env) (node : Nat)
+    (m : Juno.C12.Machine) (ins : List Input)
+    (hd : driverSeq (tmMachineQuiet env node) true m ins = true) :
+    StartsHeights (tmMachineQuiet env node) ∧ ListenOK (tmMachineQuiet env node) m ins :=
+  ⟨tmQuiet_startsHeights env node,
+   driverSeq_listenOK (tmQuiet_startsHeights env node) ins m true (fun hh => by cases hh) hd⟩
+
+/-! ## Part 8 — behind `deliver`: the commit listener and `Driver.commit` (`ModelCommit.lean`) -/
+
+/-- **The log of a height is pruned only when its block has been acknowledged by the persister.**
+`commitListener.OnCommit` answers true exactly when the build result of the decided value is in the
+proposal store, the persister took the block AND acknowledged it (then, and only then, the build
+results of the height are dropped — `FinalizeHeight` — as the last step); in every other case (no
+build result; the context ends before the hand-over or before the answer; the persister reports an
+error) it answers false, nothing is finalized, and `Driver.commit` returns an error WITHOUT
+`DeleteWALEntries` / `Flush` — the context's error if it ended, else "commit listener failed". This is
+what `Effect.deliver` stands for in the driver model: the chain height a restarted process starts from
+(`blockchain.Height()`) is the last height whose commit was `deliver`ed. -/
+theorem commit_prunes_only_an_acknowledged_block (e : CommitEnv) (ctxEnded : Bool) (h v : Nat) :
+    ((onCommit e).1 = true ↔ e.found = true ∧ e.handedOver = true ∧ e.persist = .ack) ∧
+    ((onCommit e).1 = true → (onCommit e).2 = [.handover, .acked, .hooks, .finalize]) ∧
+    ((onCommit e).1 = false → CStep.acked ∉ (onCommit e).2 ∧ CStep.finalize ∉ (onCommit e).2) ∧
+    ((driverCommit e ctxEnded h v).1 = .ok →
+      (driverCommit e ctxEnded h v).2 = [Effect.deliver h v, Effect.prune h, Effect.flush] ∧
+      CStep.acked ∈ (onCommit e).2) ∧
+    ((driverCommit e ctxEnded h v).1 ≠ .ok →
+      (driverCommit e ctxEnded h v).2 = [] ∧ CStep.acked ∉ (onCommit e).2 ∧
+      (driverCommit e ctxEnded h v).1 = (if ctxEnded then .ctxErr else .refused)) :=
+  ⟨onCommit_true_iff e, onCommit_true_steps e,
+   fun hf => ⟨(onCommit_false_steps e hf).1, (onCommit_false_steps e hf).2.1⟩,
+   (driverCommit_spec e ctxEnded h v).2.1, (driverCommit_spec e ctxEnded h v).2.2⟩
+
 /-! ## Non-vacuity -/
 
 -- the crash theorem instantiated on a VOTING machine, on a history with two crashes, where votes
@@ -514,6 +675,120 @@ example :
     (tm4T.step (liveRun tm4T (tm4T.init 1) pendIns.dropLast).1 (.prevote 1 0 3 (some 7))).2 =
       [.writeWAL (.prevote 1 0 3 (some 7)), .broadcastPrevote 1 1 (some 7), .scheduleTimeout 1 1 1,
        .broadcastPrecommit 1 1 (some 7), .scheduleTimeout 2 1 1] := by
+  decide
+
+-- `failed_log_write_stop_is_a_moment`, SetWALEntry case: the toy non-proposer has prevoted 7; the
+-- `SetWALEntry` for the next input (a prevote) fails. The call for that input returns its entry
+-- first; the process performed exactly the effects of the two inputs before it, `Close` flushes
+example :
+    let M := toyMachine (fun _ => false) (fun _ => 0)
+    let ins : List Input := [.start, .proposal 4 0 2 (-1) 7]
+    let i : Input := .prevote 4 0 3 (some 7)
+    (M.step (liveRun M (M.init 4) ins).1 i).2 =
+        [.writeWAL (.prevote 4 0 3 (some 7)), .broadcastPrecommit 4 0 (some 7)] ∧
+      stopTrace (liveRun M (M.init 4) (ins ++ [i])).2 (liveRun M (M.init 4) ins).2.length true =
+        [.append (.start 4), .setTimer 0 4 0, .append (.proposal 4 0 2 (-1) 7), .flush,
+         .sendPrevote 4 0 (some 7), .flush] ∧
+      ListenOK M (M.init 4) [.start, .proposal 4 0 2 (-1) 7, .prevote 4 0 3 (some 7)] := by
+  refine ⟨by decide, by decide, ?_⟩
+  show ListenOK (toyMachine (fun _ => false) (fun _ => 0)) (Toy.init 4)
+    [.start, .proposal 4 0 2 (-1) 7, .prevote 4 0 3 (some 7)]
+  simp only [ListenOK]
+  decide
+
+-- DeleteWALEntries case: the toy machine commits height 4; the prune behind the delivery fails:
+-- nothing is pending there, the image is that of the boundary in front of the prune
+example :
+    let M := toyMachine (fun _ => false) (fun _ => 0)
+    let ins : List Input := [.start, .proposal 4 0 2 (-1) 7, .prevote 4 0 3 (some 7), .precommit 4 0 3 (some 7)]
+    let tr := (liveRun M (M.init 4) ins).2
+    tr = tr.take 11 ++ Effect.prune 4 :: [Effect.flush] ∧
+      (applyEffects (Node.fresh 3) (stopTrace tr 11 true)).store.flushed =
+        (applyEffects (Node.fresh 3) (tr.take 11)).store.flushed ∧
+      (applyEffects (Node.fresh 3) (tr.take 11)).chainHeight = 4 := by
+  decide
+
+-- `error_stop_during_replay_is_a_crash_point`: the process died between the flush in front of the
+-- commit and its delivery; the restarted process re-executes the commit while replaying and the
+-- commit listener refuses it (the 4th effect of the replay)
+example :
+    let M := toyMachine (fun _ => false) (fun _ => 0)
+    let ins : List Input := [.start, .proposal 4 0 2 (-1) 7, .prevote 4 0 3 (some 7), .precommit 4 0 3 (some 7)]
+    let n := applyEffects (Node.fresh 3) ((liveRun M (M.init 4) ins).2.take 10)
+    (recover M n).2.1 = [.setTimer 0 4 0, .sendPrevote 4 0 (some 7), .sendPrecommit 4 0 (some 7)] ++
+        Effect.deliver 4 7 :: [.prune 4, .flush] ∧ (Effect.deliver 4 7).canFail = true := by
+  decide
+
+-- `no_conflicting_vote_after_stop_between_inputs` (here through its `=`-version of the hypotheses): a
+-- history crash → restart → regular stop → restart, on the voting toy machine
+example (cont2 : List Input) :
+    let M := toyMachine (fun _ => false) (fun _ => 0)
+    let ins : List Input := [.start, .proposal 4 0 2 (-1) 7]
+    let n := applyEffects (Node.fresh 3) (liveRun M (M.init 4) ins).2
+    let cont : List Input := [.start, .prevote 4 0 3 (some 7)]
+    let n2 := applyEffects (recover M n).2.2 ((liveRun M (recover M n).1 cont).2 ++ [Effect.flush])
+    ListenOK M (recover M n2).1 cont2 →
+    ∀ v ∈ votesOf ((liveRun M (M.init 4) ins).2 ++ (recover M n).2.1 ++
+        (liveRun M (recover M n).1 cont).2 ++ [Effect.flush]),
+      ∀ w ∈ votesOf ((recover M n2).2.1 ++ (liveRun M (recover M n2).1 cont2).2), ¬ v.conflicts w := by
+  intro M ins n cont n2 ok2
+  have ok : ListenOK M (M.init 4) ins := by
+    show ListenOK (toyMachine (fun _ => false) (fun _ => 0)) (Toy.init 4) [.start, .proposal 4 0 2 (-1) 7]
+    simp only [ListenOK]
+    decide
+  have okc : ListenOK M (recover M n).1 cont := by
+    show ListenOK (toyMachine (fun _ => false) (fun _ => 0))
+      (recover (toyMachine (fun _ => false) (fun _ => 0)) (applyEffects (Node.fresh 3)
+        (liveRun (toyMachine (fun _ => false) (fun _ => 0)) (Toy.init 4) [.start, .proposal 4 0 2 (-1) 7]).2)).1
+      [.start, .prevote 4 0 3 (some 7)]
+    simp only [ListenOK]
+    decide
+  have m1 : Moment M 3 n (liveRun M (M.init 4) ins).2 :=
+    Moment.first ins ok _ [] (List.append_nil _).symm
+  have m2 := Moment.stoppedResumed n _ m1 cont okc
+  have hs := toy_replaySafe (fun _ => false) (fun _ => 0)
+  exact durable_no_conflict M hs (toy_noEquivocation _ _) 3 n2 _ (moment_durable M hs 3 n2 _ m2) cont2 ok2
+
+-- the stop in that history is not vacuous: votes were broadcast before the crash (prevote) and
+-- before the stop (precommit), and the node restarted after the stop re-broadcasts both
+example :
+    let M := toyMachine (fun _ => false) (fun _ => 0)
+    let ins : List Input := [.start, .proposal 4 0 2 (-1) 7]
+    let n := applyEffects (Node.fresh 3) (liveRun M (M.init 4) ins).2
+    let cont : List Input := [.start, .prevote 4 0 3 (some 7)]
+    let n2 := applyEffects (recover M n).2.2 ((liveRun M (recover M n).1 cont).2 ++ [Effect.flush])
+    votesOf (liveRun M (recover M n).1 cont).2 = [⟨.precommit, 4, 0, some 7⟩] ∧
+      votesOf (recover M n2).2.1 = [⟨.prevote, 4, 0, some 7⟩, ⟨.precommit, 4, 0, some 7⟩] := by
+  decide
+
+-- `tendermint_logs_first` on the current transcription (no variant): the late round-0 prevote of the
+-- F5 scenario is logged first and followed by two broadcasts and two timers
+example :
+    (tm4.step (liveRun tm4 (tm4.init 1) pendIns.dropLast).1 (.prevote 1 0 3 (some 7))).2 =
+      [.writeWAL (.prevote 1 0 3 (some 7)), .broadcastPrevote 1 1 (some 7), .scheduleTimeout 1 1 1,
+       .broadcastPrecommit 1 1 (some 7), .scheduleTimeout 2 1 1] ∧
+    (tm4.step (liveRun tm4 (tm4.init 1) pendIns).1 (.timeout 0 1 1)).2 = [] := by
+  decide
+
+-- `driver_call_sequence_obeys_listen_discipline` on juno's machine: boot, a height decided after
+-- messages (`pendIns` + the late messages), `ProcessStart` again — and a sequence that hands a message
+-- to the machine right after a commit is NOT a call sequence of `listen`
+example :
+    driverSeq (tmMachineQuiet env4 4) true ((tmMachineQuiet env4 4).init 1)
+        (pendIns ++ [.precommit 1 1 3 (some 7), .start, .prevote 2 0 1 (some 8)]) = true ∧
+      driverSeq (tmMachineQuiet env4 4) true ((tmMachineQuiet env4 4).init 1)
+        (pendIns ++ [.precommit 1 1 3 (some 7), .prevote 2 0 1 (some 8)]) = false ∧
+      driverSeq (tmMachineQuiet env4 4) true ((tmMachineQuiet env4 4).init 1) [.prevote 1 0 1 (some 7)] = false := by
+  decide
+
+-- `commit_prunes_only_an_acknowledged_block`: the five environments the harness produces
+example :
+    driverCommit ⟨true, true, .ack⟩ false 4 7 = (.ok, [.deliver 4 7, .prune 4, .flush]) ∧
+    driverCommit ⟨false, true, .ack⟩ false 4 7 = (.refused, []) ∧
+    driverCommit ⟨true, false, .ack⟩ true 4 7 = (.ctxErr, []) ∧
+    driverCommit ⟨true, true, .ctxDone⟩ true 4 7 = (.ctxErr, []) ∧
+    driverCommit ⟨true, true, .error⟩ false 4 7 = (.refused, []) ∧
+    (onCommit ⟨true, true, .error⟩).2 = [.handover] := by
   decide
 
 /-
